@@ -128,7 +128,7 @@ def build(q, wd):
     info['c_lines'] = sum(1 for _ in open(cfile))
     # translated executable (gcc on the C that CBMC sees)
     exe_t = os.path.join(wd, 'exe_t')
-    rc, out, dt = sh(['gcc', '-O1', '-w', '-DTRANSLATED', '-fno-strict-aliasing', '-fwrapv', cfile, NATIVE_RT, '-o', exe_t], timeout=600)
+    rc, out, dt = sh(['gcc', '-O1', '-w', '-DTRANSLATED', '-fno-strict-aliasing', '-fwrapv', cfile, NATIVE_RT, '-o', exe_t, '-lstdc++', '-lm'], timeout=600)
     if rc != 0:
         raise Inconclusive('gcc on translated C failed for %s:\n%s' % (q.name, out[-3000:]))
     # native executable: real std containers, real boost, g++
